@@ -9,6 +9,7 @@ import (
 	"flag"
 	"fmt"
 	"math/rand"
+	"net/url"
 	"regexp"
 	"strings"
 	"sync"
@@ -19,6 +20,7 @@ import (
 	"mosn.io/mosn/pkg/protocol"
 	"mosn.io/mosn/pkg/router"
 	"mosn.io/mosn/pkg/types"
+	"mosn.io/mosn/pkg/upstream/cluster"
 	"mosn.io/pkg/variable"
 	"verif/vh"
 )
@@ -53,7 +55,48 @@ type rule struct {
 	Re string   `json:"re"`
 	Hs []hm     `json:"hs"`
 	Vs []vm     `json:"vs"`
+	Qs []hm     `json:"qs"`
+	Ds [][]tok  `json:"ds"`
 	C  string   `json:"c"`
+}
+
+// tok is one token of a DSL expression in prefix order (RouteSem.tla Ev3).
+type tok struct {
+	T  string   `json:"t"`
+	N  string   `json:"n"`
+	V  string   `json:"v"`
+	Pa []string `json:"pa"`
+}
+
+// render turns the prefix-order tokens starting at i into CEL text and returns the next index.
+func render(e []tok, i int) (string, int) {
+	t := e[i]
+	switch t.T {
+	case "and", "or":
+		a, j := render(e, i+1)
+		b, k := render(e, j)
+		op := " && "
+		if t.T == "or" {
+			op = " || "
+		}
+		return "(" + a + ")" + op + "(" + b + ")", k
+	case "not":
+		a, j := render(e, i+1)
+		return "!(" + a + ")", j
+	case "meq":
+		return fmt.Sprintf("request.method == %q", t.V), i + 1
+	case "ppre":
+		return fmt.Sprintf("request.path.startsWith(%q)", strings.Join(t.Pa, "")), i + 1
+	case "peq":
+		return fmt.Sprintf("request.path == %q", strings.Join(t.Pa, "")), i + 1
+	case "heq":
+		return fmt.Sprintf("request.headers[%q] == %q", t.N, t.V), i + 1
+	case "hdef":
+		return fmt.Sprintf("(request.headers[%q] | \"none\") == %q", t.N, t.V), i + 1
+	case "qeq":
+		return fmt.Sprintf("request.query_params[%q] == %q", t.N, t.V), i + 1
+	}
+	panic("unknown DSL token " + t.T)
 }
 type vhost struct {
 	Doms  []dom  `json:"doms"`
@@ -77,6 +120,13 @@ type line struct {
 	Vhosts []vhost `json:"vhosts"`
 	Areqs  []int   `json:"areqs"`
 	Rreqs  []int   `json:"rreqs"`
+	Kv      bool       `json:"kv"`      // also ask MatchRouteFromHeaderKV for every key/value of the universe
+	Present [][]string `json:"present"` // cluster sets under which the handler is asked
+	Hreqs   []int      `json:"hreqs"`   // route requests for the handler lookups
+	Kvs     []struct {
+		Key   string `json:"key"`
+		Value string `json:"value"`
+	} `json:"kvs"`
 	// universes and menus
 	Reqs json.RawMessage `json:"reqs"`
 	Vals []string        `json:"vals"`
@@ -93,6 +143,31 @@ func norm(r *rule) {
 	if r.Vs == nil {
 		r.Vs = []vm{}
 	}
+	if r.Qs == nil {
+		r.Qs = []hm{}
+	}
+	if r.Ds == nil {
+		r.Ds = [][]tok{}
+	}
+	for i := range r.Ds {
+		for j := range r.Ds[i] {
+			if r.Ds[i][j].Pa == nil {
+				r.Ds[i][j].Pa = []string{}
+			}
+		}
+	}
+}
+
+// applyQs installs the query parameter matchers of rule r, which sits at (vhost, pos) of rs (0-based).
+func applyQs(rs types.Routers, vhost, pos int, r rule) {
+	if len(r.Qs) == 0 {
+		return
+	}
+	ms := make([]v2.HeaderMatcher, 0, len(r.Qs))
+	for _, q := range r.Qs {
+		ms = append(ms, v2.HeaderMatcher{Name: q.N, Value: q.V, Regex: q.Re})
+	}
+	router.VerifSetQueryParameters(rs, vhost, pos, ms)
 }
 
 func toRouter(r rule) v2.Router {
@@ -108,6 +183,10 @@ func toRouter(r rule) v2.Router {
 	}
 	for _, h := range r.Hs {
 		out.Match.Headers = append(out.Match.Headers, v2.HeaderMatcher{Name: h.N, Value: h.V, Regex: h.Re})
+	}
+	for _, e := range r.Ds {
+		txt, _ := render(e, 0)
+		out.Match.DslExpressions = append(out.Match.DslExpressions, v2.DslExpressionMatcher{Expression: txt})
 	}
 	for _, v := range r.Vs {
 		out.Match.Variables = append(out.Match.Variables, v2.VariableMatcher{Name: v.N, Value: v.V, Regex: v.Re, Model: v.M})
@@ -157,6 +236,75 @@ func clusterOf(ctx context.Context, r api.Route) string {
 
 // lookup performs one MatchRoute and one MatchAllRoutes the way the proxy does: request
 // properties in the variable context, headers in the header map.
+func mkctx(a dom, q rreq) (context.Context, protocol.CommonHeader) {
+	ctx := variable.NewVariableContext(context.Background())
+	if at := a.text(); at != "" {
+		variable.SetString(ctx, types.VarHost, at)
+	}
+	if len(q.Path) > 0 {
+		variable.SetString(ctx, types.VarPath, strings.Join(q.Path, ""))
+	}
+	variable.SetString(ctx, types.VarMethod, q.Method)
+	if q.Query != "" {
+		variable.SetString(ctx, types.VarQueryString, q.Query)
+	}
+	h := protocol.CommonHeader{}
+	if q.Hd.H1 != "-" {
+		h["h1"] = q.Hd.H1
+	}
+	if q.Hd.H2 != "-" {
+		h["h2"] = q.Hd.H2
+	}
+	if q.Hd.Service != "-" {
+		h["service"] = q.Hd.Service
+	}
+	return ctx, h
+}
+
+// kvLookup asks the key/value fast index of the virtual host the authority selects.
+func kvLookup(tr *vh.Trace, rs types.Routers, a dom, q rreq, key, value string) {
+	defer guard(tr, "MatchRouteFromHeaderKV", vh.Ev{"h": a.H, "p": a.P, "key": key, "value": value})
+	ctx, h := mkctx(a, q)
+	got := clusterOf(ctx, rs.MatchRouteFromHeaderKV(ctx, h, key, value))
+	tr.Emit(vh.Ev{"ev": "kvlook", "h": a.H, "p": a.P, "key": key, "value": value, "got": got})
+}
+
+// handlerLookup goes through the route handler the proxy uses for every request.
+func handlerLookup(tr *vh.Trace, rs types.Routers, cm types.ClusterManager, a dom, q rreq) {
+	defer guard(tr, "DoRouteHandler", vh.Ev{"h": a.H, "p": a.P, "path": q.Path, "method": q.Method, "query": q.Query, "hd": q.Hd})
+	ctx, h := mkctx(a, q)
+	snap, route := router.GetMakeHandlerFunc(types.DefaultRouteHandler).DoRouteHandler(ctx, h, rs, cm)
+	sn := ""
+	if snap != nil && snap.ClusterInfo() != nil {
+		sn = snap.ClusterInfo().Name()
+	}
+	tr.Emit(vh.Ev{"ev": "hlook", "h": a.H, "p": a.P, "path": q.Path, "method": q.Method, "query": q.Query,
+		"hd": q.Hd, "route": clusterOf(ctx, route), "snap": sn})
+}
+
+// syncClusters makes the cluster manager hold exactly the named clusters.
+func syncClusters(cm types.ClusterManager, have map[string]bool, want []string) error {
+	w := map[string]bool{}
+	for _, n := range want {
+		w[n] = true
+		if !have[n] {
+			if err := cm.AddOrUpdatePrimaryCluster(v2.Cluster{Name: n, ClusterType: v2.SIMPLE_CLUSTER, LbType: v2.LB_RANDOM}); err != nil {
+				return err
+			}
+			have[n] = true
+		}
+	}
+	for n := range have {
+		if !w[n] {
+			if err := cm.RemovePrimaryCluster(n); err != nil {
+				return err
+			}
+			delete(have, n)
+		}
+	}
+	return nil
+}
+
 func lookup(tr *vh.Trace, rs types.Routers, a dom, q rreq, g int) {
 	defer guard(tr, "lookup", vh.Ev{"h": a.H, "p": a.P, "path": q.Path, "method": q.Method, "query": q.Query, "hd": q.Hd})
 	ctx := variable.NewVariableContext(context.Background())
@@ -239,6 +387,35 @@ func main() {
 	const mgrName = "c04-router"
 	mgr := router.NewRouterManager()
 	ncase, nlook := 0, 0
+	type kvT struct{ key, value string }
+	var kvs []kvT
+	cm := cluster.NewClusterManagerSingleton(nil, nil, nil)
+	have := map[string]bool{}
+	// extra entry points of one case on the routers rs: the key/value index and the route handler
+	extras := func(ln *line, rs types.Routers) error {
+		if ln.Kv {
+			for _, ai := range ln.Areqs {
+				for _, kv := range kvs {
+					kvLookup(tr, rs, areqs[ai], rreqs[ln.Rreqs[0]], kv.key, kv.value)
+				}
+			}
+		}
+		for _, present := range ln.Present {
+			if present == nil {
+				present = []string{}
+			}
+			if err := syncClusters(cm, have, present); err != nil {
+				return err
+			}
+			tr.Emit(vh.Ev{"ev": "clusters", "present": present})
+			for _, ai := range ln.Areqs {
+				for _, qi := range ln.Hreqs {
+					handlerLookup(tr, rs, cm, areqs[ai], rreqs[qi])
+				}
+			}
+		}
+		return nil
+	}
 	err := vh.ReadCases(*cases, func(raw json.RawMessage) error {
 		var ln line
 		if err := json.Unmarshal(raw, &ln); err != nil {
@@ -275,6 +452,34 @@ func main() {
 					if re.MatchString(v) != in[v] {
 						return fmt.Errorf("spec menu: regex %q on %q: spec says %v", e.Re, v, in[v])
 					}
+				}
+			}
+			return nil
+		case "kvs":
+			for _, kv := range ln.Kvs {
+				kvs = append(kvs, kvT{kv.Key, kv.Value})
+			}
+			return nil
+		case "qparse": // the hand-parsed query strings of the spec must be what net/url makes of them
+			var menu []struct {
+				Q string `json:"q"`
+				N string `json:"n"`
+				V string `json:"v"`
+			}
+			if err := json.Unmarshal(ln.Menu, &menu); err != nil {
+				return err
+			}
+			for _, e := range menu {
+				vals, err := url.ParseQuery(e.Q)
+				if err != nil {
+					return err
+				}
+				got := "-"
+				if v, ok := vals[e.N]; ok {
+					got = v[0]
+				}
+				if got != e.V {
+					return fmt.Errorf("spec menu: query %q parameter %q: spec says %q, net/url %q", e.Q, e.N, e.V, got)
 				}
 			}
 			return nil
@@ -330,11 +535,16 @@ func main() {
 			if err != nil {
 				return nil
 			}
+			for vi, v := range ln.Vhosts {
+				for ri, r := range v.Rules {
+					applyQs(rs, vi, ri, r)
+				}
+			}
 			for _, p := range looks {
 				lookup(tr, rs, p.a, p.q, 0)
 				nlook++
 			}
-			return nil
+			return extras(&ln, rs)
 		}
 		// ---- update history through the RouterManager, ending in the configuration of the case
 		keepN := make([]int, len(ln.Vhosts))
@@ -357,6 +567,14 @@ func main() {
 		tr.Emit(vh.Ev{"ev": "cfg", "via": "manager", "part": ln.Part, "vhosts": evVhosts(ln.Vhosts, keep), "err": refused})
 		if refused {
 			return nil
+		}
+		rs0 := rw.GetRouters()
+		live := make([]int, len(ln.Vhosts)) // number of rules each real virtual host holds
+		for vi, v := range ln.Vhosts {
+			live[vi] = keepN[vi]
+			for ri, r := range v.Rules[:keepN[vi]] {
+				applyQs(rs0, vi, ri, r)
+			}
 		}
 		where := func(before, after []int, grow bool) int {
 			for i := range before {
@@ -381,6 +599,11 @@ func main() {
 					}
 				}
 				tr.Emit(vh.Ev{"ev": "removeall", "dom": d, "idx": idx})
+				if idx > 0 {
+					live[idx-1] = 0
+				} else if idx == -1 {
+					live[vi] = 0
+				}
 				start = 0
 			}
 			for _, r := range v.Rules[start:] {
@@ -392,6 +615,10 @@ func main() {
 					idx = where(before, routersLens(rw), true)
 				}
 				tr.Emit(vh.Ev{"ev": "addroute", "dom": d, "rule": r, "idx": idx})
+				if idx > 0 {
+					applyQs(rs0, idx-1, live[idx-1], r)
+					live[idx-1]++
+				}
 			}
 		}
 		rs := rw.GetRouters()
@@ -410,7 +637,7 @@ func main() {
 		}
 		wg.Wait()
 		nlook += 2 * len(looks)
-		return nil
+		return extras(&ln, rs)
 	})
 	vh.Must(err, "c04 cases")
 	fmt.Printf("cases=%d lookups=%d events=%d\n", ncase, nlook, tr.Len())
